@@ -388,6 +388,11 @@ func main() {
 			}
 		}
 		exercise("real-insertion-3-2", ps, g, false, *ncuts, *win, prove)
+		if scratchDir != "" {
+			// left for the caller: the CLI's convert-to-raw is run on these
+			os.WriteFile(filepath.Join(scratchDir, "real.compressed.keys"), write(ps, false), 0o644)
+			os.WriteFile(filepath.Join(scratchDir, "real.raw.keys"), write(ps, true), 0o644)
+		}
 	}
 	_ = io.EOF
 	keys := make([]string, 0, len(stat))
